@@ -12,6 +12,7 @@ CONSTANTS
   MaxEdits = 0
   EditOps <- NoKinds
   Weak_ChallengeNotBound = FALSE
+  Weak_ChallengeDHOnly = FALSE
   Weak_AcceptLowOrder = FALSE
   Weak_NonceNotIncremented = FALSE
   Weak_RecvNonceNotIncremented = FALSE
